@@ -151,11 +151,11 @@ def gen_specs(tier, seed):
         specs.append(("plain", (a, b)))
     triples = list(itertools.product(STMTS, repeat=3))
     rnd.shuffle(triples)
-    n3 = 250 if tier == "quick" else 4000
+    n3 = 250 if tier == "quick" else 9000
     for t in triples[:n3]:
         specs.append((rnd.choice(META), t))
     if tier == "thorough":
-        for _ in range(1500):
+        for _ in range(5000):
             specs.append((rnd.choice(META), tuple(rnd.choice(STMTS) for _ in range(rnd.choice((4, 5))))))
     return specs
 
